@@ -102,7 +102,7 @@ func treeToProofD(t any) *gabi.ProofD {
 				}
 				p.RangeProofs[i] = append(p.RangeProofs[i], &rangeproof.Proof{Cs: tInts(rm["Cs"]), DResponses: tInts(rm["ds"]),
 					VResponses: tInts(rm["vs"]), V5Response: tInt(rm["v5"]), Ld: uint(tNum(rm["l_d"])), Sign: int(tNum(rm["sign"])),
-					A: uint(tNum(rm["a"])), K: tInt(rm["k"])})
+					A: uint(tNum(rm["a"])), K: tInt(rm["k"]), MResponse: tInt(rm["m_response"])}) // m_response: in memory only
 			}
 		}
 	}
